@@ -1,6 +1,7 @@
 //! Interpreter of callback scripts (finalizers, destructors, cleaning actions, new_cyclic closures)
 //! and the shared upgrade routine with its oracle (C08).
 
+#[allow(unused_imports)]
 use rust_cc::*;
 
 use crate::exec::*;
